@@ -97,6 +97,16 @@ def generate(seed: int, tier: str, index: int) -> dict:
         if rng.random() < 0.3:
             actors.append({"id": "chaos", "kind": "drmplayer", "prng": 0,
                            "script": [{"op": "sleep", "us": rng.randrange(0, 100_000)}, {"op": "restart"}]})
+        if rng.random() < 0.35:
+            # the keys of the encrypted fixture are edited while players fetch manifests and init segments:
+            # every PlayReady Object must follow the key stored at the time of the request
+            mscript = [{"op": "auth"}]
+            for _ in range(rng.randrange(1, 4)):
+                mscript.append({"op": "sleep", "us": rng.randrange(0, 60_000)})
+                mscript.append({"op": "edit_key", "which": rng.randrange(3), "key": "%032x" % rng.getrandbits(128),
+                                "computed": False})
+            actors.append({"id": "mgr", "kind": "manager", "role": "media", "prng": rng.getrandbits(32),
+                           "latency": {"min_us": 1000, "jitter_us": rng.choice([0, 40_000])}, "script": mscript})
         spec["actors"] = actors
     else:
         spec["kind"] = "licence"
@@ -216,8 +226,18 @@ class DrmOracle:
     def __init__(self, sim: Sim, world) -> None:
         self.sim = sim
         self.world = world
+        self.key_epoch = 0          # number of management requests delivered so far (they may change a key)
         self.index = StoredIndex(world.blob_dir)
         self.manifest_cp: dict[tuple, dict] = {}
+
+    def after_delivery(self, msg, resp) -> None:
+        # responses travel: what the observers judge later is compared with the key store as it was when the
+        # request was served, not when the answer arrived
+        if getattr(msg.actor, "kind", "") == "manager":
+            self.key_epoch += 1
+        else:
+            resp.key_epoch = self.key_epoch
+            resp.keys_at_delivery = self.keys()
 
     def keys(self) -> dict[str, dict]:
         return {r["hkid"].lower(): r for r in rows(self.world, "key")}
@@ -263,7 +283,7 @@ class DrmOracle:
                 if got_systems != set(want):
                     sim.violate("contentprotection-systems", subj,
                                 f"manifest has {sorted(got_systems)}, requested {sorted(want)} (drm={q.get('drm')}); {doc.url}")
-                rec = {"pssh": {}, "pro": None}
+                rec = {"pssh": {}, "pro": None, "key_epoch": getattr(doc.resp, "key_epoch", self.key_epoch)}
                 for cp in cps:
                     scheme = cp["attrib"].get("schemeIdUri", "").lower()
                     el = cp["elem"]
@@ -295,7 +315,7 @@ class DrmOracle:
                             sim.violate("manifest-pssh-systemid", f"{subj}/{system}", f"{box.system_id.hex()}; {doc.url}")
                         rec["pssh"][system] = raw
                         if system == "playready":
-                            self.check_pro(box.data, sf.kid, q, subj + "/cenc", doc.url)
+                            self.check_pro(box.data, sf.kid, q, subj + "/cenc", doc.url, doc.resp)
                         elif box.kids and sf.kid not in box.kids:
                             sim.violate("manifest-pssh-kid", f"{subj}/{system}", f"{[k.hex() for k in box.kids]}; {doc.url}")
                     for p in pros:
@@ -305,11 +325,11 @@ class DrmOracle:
                             sim.violate("manifest-pro-base64", subj, f"{err}; {doc.url}")
                             continue
                         rec["pro"] = raw
-                        self.check_pro(raw, sf.kid, q, subj + "/pro", doc.url)
+                        self.check_pro(raw, sf.kid, q, subj + "/pro", doc.url, doc.resp)
                 for rep in aset.reps:
                     self.manifest_cp[(actor.id, doc.url, doc.fetched_us, rep.id)] = rec
 
-    def check_pro(self, pro: bytes, kid: bytes, q: dict, subj: str, where: str) -> None:
+    def check_pro(self, pro: bytes, kid: bytes, q: dict, subj: str, where: str, resp=None) -> None:
         sim = self.sim
         sim.check("c11-pro")
         try:
@@ -324,7 +344,7 @@ class DrmOracle:
         if kid_le not in f["kids"]:
             sim.violate("pro-kid", subj, f"WRMHEADER KIDs {[k.hex() for k in f['kids']]}, expected bytes_le "
                                          f"{kid_le.hex()} of {kid.hex()}; {where}")
-        key_row = self.keys().get(kid.hex())
+        key_row = (getattr(resp, "keys_at_delivery", None) or self.keys()).get(kid.hex())
         if key_row is None:
             sim.violate("pro-key-unknown", subj, f"no stored key for {kid.hex()}; {where}")
             return
@@ -380,14 +400,17 @@ class DrmOracle:
         for system, (raw, ps) in by_system.items():
             sim.check("c11-init-vs-manifest")
             subj = f"{tmpl}/{aset.content_type}/{system}"
+            same_keys = rec.get("key_epoch") == getattr(resp, "key_epoch", self.key_epoch)   # no key edit in between
+            if not same_keys:
+                sim.world.probe("c11.skip-compare-across-key-edit")
             m = rec["pssh"].get(system)
-            if m is not None and m != raw:
+            if m is not None and m != raw and same_keys:
                 sim.violate("pssh-manifest-vs-init", subj,
                             f"cenc:pssh in the manifest ({len(m)} bytes) differs from the pssh box in the init "
                             f"segment ({len(raw)} bytes) of the same request; {url}")
             if system == "playready":
-                self.check_pro(ps.data, sf.kid, url_parts(doc.url)["q"], subj + "/moov", url)
-                if rec["pro"] is not None and rec["pro"] != ps.data:
+                self.check_pro(ps.data, sf.kid, url_parts(doc.url)["q"], subj + "/moov", url, resp)
+                if rec["pro"] is not None and rec["pro"] != ps.data and same_keys:
                     sim.violate("pro-manifest-vs-init", subj,
                                 f"mspr:pro in the manifest differs from the PRO inside the init segment's pssh; {url}")
 
@@ -508,7 +531,11 @@ def execute(spec: dict) -> dict:
         actors = []
         if drm:
             oracle = DrmOracle(sim, world)
+            sim.after_delivery = oracle.after_delivery
             for a in spec["actors"]:
+                if a["kind"] == "manager":
+                    actors.append(Manager(sim, a))
+                    continue
                 p = DrmPlayer(sim, a)
                 p.observers = [oracle]
                 actors.append(p)
